@@ -7,6 +7,7 @@ use crate::model::*;
 use crate::provider::*;
 use crate::reference::*;
 use crate::run::*;
+use crate::sched::Policy;
 use crate::runner::*;
 use crate::struct_property;
 use crate::tape::Tape;
@@ -42,6 +43,9 @@ impl C20 {
         let res = guarded(|| -> Result<(bool, bool, bool), Failure> {
             let provider = TableProvider::new(c.u.clone());
             provider.log_all.set(true);
+            // the tail of `extra` decides the provider flavour (older tapes keep their meaning)
+            let reversed = sc.extra.get(95).map_or(false, |v| v & 1 == 1);
+            provider.filter_reversed.set(reversed);
             let cache = SolverCache::new(provider);
             let log_len = |cache: &SolverCache<TableProvider>| cache.provider().log.borrow().len();
             let mut fetched_pkgs: HashSet<usize> = HashSet::new();
@@ -104,8 +108,13 @@ impl C20 {
                         }
                         .expect("sync")
                         .map_err(|_| bad("unexpected-cancel", key.clone()))?;
-                        let want = if inverse { sids(u, &u.vs_non_cands(vs)) } else { sids(u, &u.vs_cands(vs)) };
-                        let got: Vec<u32> = got.iter().map(|s| s.0).collect();
+                        let mut want = if inverse { sids(u, &u.vs_non_cands(vs)) } else { sids(u, &u.vs_cands(vs)) };
+                        let mut got: Vec<u32> = got.iter().map(|s| s.0).collect();
+                        if reversed {
+                            // the provider answers in its own order; what must agree is the partition
+                            want.sort_unstable();
+                            got.sort_unstable();
+                        }
                         if got != want {
                             return Err(bad(
                                 if inverse { "non-matching" } else { "matching" },
@@ -261,6 +270,55 @@ impl C20 {
                 return;
             }
         }
+        // Union answers are the members' sorted lists in MEMBER order, whatever order an
+        // asynchronous provider completes the members' requests in.
+        for (ui, un) in c.u.unions.iter().enumerate().take(3) {
+            if un.members.len() < 2 {
+                continue;
+            }
+            let policy = if sc.extra.get(94 - ui).map_or(true, |v| v & 1 == 0) { Policy::Lifo } else { Policy::Fifo };
+            let sched = crate::sched::Sched::new(policy, vec![]);
+            let provider = TableProvider::new(c.u.clone()).with_sched(sched.clone());
+            let cache = SolverCache::new(provider);
+            let rt = crate::sched::SchedRuntime { sched: sched.clone() };
+            let req = Requirement::Union(VersionSetUnionId(un.id));
+            let r = guarded(|| {
+                use resolvo::runtime::AsyncRuntime;
+                rt.block_on(cache.get_or_cache_sorted_candidates(req))
+                    .map(|v| v.iter().map(|s| s.0).collect::<Vec<u32>>())
+                    .map_err(|_| ())
+            });
+            rep.evaluations += 1;
+            match r {
+                Err(p) => {
+                    rep.failure = Some(Failure {
+                        signature: if p.message.starts_with(crate::sched::DEADLOCK_MSG) { "deadlock".into() } else { p.signature() },
+                        detail: format!("async SolverCache::get_or_cache_sorted_candidates(union {ui}): {}", p.message),
+                    });
+                    return;
+                }
+                Ok(Err(())) => {
+                    rep.failure = Some(Failure {
+                        signature: "C20:unexpected-cancel".into(),
+                        detail: format!("async union {ui}"),
+                    });
+                    return;
+                }
+                Ok(Ok(got)) => {
+                    let want: Vec<u32> = un.members.iter().flat_map(|&m| sids(u, &u.vs_ranked(m))).collect();
+                    rep.labels.push("async-union");
+                    if got != want {
+                        rep.failure = Some(Failure {
+                            signature: "C20:sorted-union-async".into(),
+                            detail: format!(
+                                "union {ui} answered through an asynchronous provider: got {got:?}, expected the members' sorted candidates in member order {want:?}"
+                            ),
+                        });
+                        return;
+                    }
+                }
+            }
+        }
         // re-entrant queries from inside sort_candidates during a solve
         let mut outcomes = vec![];
         for probe in [SortProbe::Off, SortProbe::On] {
@@ -305,7 +363,7 @@ impl C20 {
     }
 }
 
-struct_property!(C20, "C20", "tape -> universe (all hint modes, favored anywhere in the rank, missing packages, unions) + history of direct SolverCache calls (candidates, matching, non-matching, sorted single/union, dependencies, availability) checked against the provider tables: matching/non-matching partition the listing exactly as filter_candidates defines, sorted = matching in sort_candidates order with the favored candidate rotated to the front, union = concatenation in member order, repeated queries return the same and leave the provider call log unchanged, and after EVERY operation are_dependencies_available_for(s) == (s hinted by a fetched package) or (dependencies of s fetched), for every solvable; plus a full solve whose sort_candidates re-enters the cache (availability answers checked at the time of the call, result equal to the non-probing solve). Non-trivial: a matched favored candidate that is not first in sort order, or Some-hints, or a repeated query. Distinct = distinct hash of case.");
+struct_property!(C20, "C20", "tape -> universe (all hint modes, favored anywhere in the rank, missing packages, unions) + history of direct SolverCache calls (candidates, matching, non-matching, sorted single/union, dependencies, availability) checked against the provider tables: matching/non-matching partition the listing exactly as filter_candidates defines, sorted = matching in sort_candidates order with the favored candidate rotated to the front, union = concatenation in member order (also when an asynchronous provider completes the members' requests in reverse), for half of the cases the provider's filter_candidates answers in reverse listing order and the partition is compared as sets, repeated queries return the same and leave the provider call log unchanged, and after EVERY operation are_dependencies_available_for(s) == (s hinted by a fetched package) or (dependencies of s fetched), for every solvable; plus a full solve whose sort_candidates re-enters the cache (availability answers checked at the time of the call, result equal to the non-probing solve). Non-trivial: a matched favored candidate that is not first in sort order, or Some-hints, or a repeated query. Distinct = distinct hash of case.");
 
 // =============================================================================== C16
 
